@@ -70,7 +70,13 @@ class Cur:
     def execute(self, sql, params=()):
         self.log.append((sql, list(params)))
         if self.percent_s:
-            sql = sql.replace("%s", "?")
+            # like the real connector: EVERY %s of the statement stands for a value, quoted or not, and the
+            # numbers have to agree; a question mark is just a character there
+            if sql.replace("%%", "").count("%s") != len(params):
+                raise sqlite3.ProgrammingError("Not all parameters were used in the SQL statement / not enough "
+                                               "parameters (%d values, statement %r)" % (len(params), sql[:120]))
+            parts = sql.split("%s")
+            sql = "?".join(p.replace("'?'", "'' || char(63) || ''").replace("%%", "%") for p in parts)
         return self.c.execute(sql, params)
 
     def __iter__(self):
@@ -303,6 +309,9 @@ def method(kind):
         elif kind == "count":
             # an aggregate without GROUP BY always gives exactly one row
             _METHODS[kind] = SqlMethod("SELECT count(*) AS cnt, max(id) AS top FROM t")
+        elif kind == "qmark":
+            # the select text itself holds a question mark and a percent sign - as text, not as placeholders
+            _METHODS[kind] = SqlMethod("SELECT id, n, s, '?' AS mark, 'x' AS pct FROM t", order_by="id")
         elif kind == "odd-names":
             _METHODS[kind] = SqlMethod('SELECT id, n AS "class", s AS "2 s" FROM t', order_by="id")
         else:
@@ -325,7 +334,7 @@ _CALLER = {}
 
 
 def table_method(m):
-    key = "table-m" if m is not None else "table-sql"
+    key = "table-m:%s" % getattr(m, 'sql_select_from', None) if m is not None else "table-sql"
     if m == "dups":
         # the statement selects some columns twice (as a join does): the table has to invent names for them
         key = "table-dups"
@@ -384,14 +393,15 @@ def run_case(ctx, rng):
         kw_conds.append(('f', '_d', '=', v))
     kw_conds.sort(key=lambda c: c[1])
     all_conds = conds + kw_conds
-    order = rng.choice(["id", "id DESC", None])
+    # (an ORDER BY text may be an expression and may be written in capitals)
+    order = rng.choice(["id", "id DESC", None, "id", "id DESC", None, "ROUND(id)", "ROUND(id) DESC", "ID DESC"])
     mode = rng.choice(["list", "list", "all", "one", "one_or_none", "scalars", "group", "table", "count"])
     if mode == "table" and SqlMethodT is None:
         mode = "list"
     case = {"rows": rows, "stored_order": [r['id'] for r in stored], "conds": all_conds, "order": order, "mode": mode,
             "percent_s": percent_s}
     exp = [r['id'] for r in rows if AND(ev(c, r) for c in all_conds) is True]
-    if order == "id DESC":
+    if order is not None and order.endswith("DESC"):
         exp.reverse()
     call_kw = dict(kw)
     if order is not None:
@@ -443,6 +453,9 @@ def run_case(ctx, rng):
                 # on a unique column)
                 m = method("nested" if rng.random() < 0.5 else "commented")
                 ctx.count("queries_on_a_select_with_a_nested_where")
+            elif rng.random() < 0.12:
+                m = method("qmark")
+                ctx.count("queries_whose_select_text_holds_a_question_mark")
             if mode in ("one", "one_or_none"):
                 ctx.count("one_row_semantics_checked")
                 scalar = rng.random() < 0.3      # the single row may be asked for as a scalar (id 0 is falsy)
@@ -502,7 +515,7 @@ def run_case(ctx, rng):
                 got = [r[0] for r in recs]
                 for r in recs:
                     src = rows[r[0]]
-                    if (r[1], r[2]) != (src['n'], src['s']) or (hasattr(r, 'n') and (r.id, r.n, r.s) != tuple(r)):
+                    if (r[1], r[2]) != (src['n'], src['s']) or (hasattr(r, 'n') and (r.id, r.n, r.s) != tuple(r)[:3]):
                         ctx.violation("record-fields-differ-from-row", {"got": tuple(r)}, case)
             if got is not None:
                 if order is None:
@@ -529,7 +542,10 @@ def run_case(ctx, rng):
         return case
     sql, params = conn.log[-1]
     ph = "%s" if percent_s else "?"
-    n_ph = sql.count(ph)
+    own_text = getattr(m, 'sql_select_from', None) or "\x00"
+    if percent_s and own_text.replace("?", "%s") != own_text and own_text.replace("?", "%s") in sql:
+        ctx.violation("select-text-of-the-method-was-rewritten", {"sql": sql[:200]}, case)
+    n_ph = sql.replace(own_text, "").count(ph)      # (question marks in the method's own select text are text)
     want_params = [v for c in all_conds for v in bound_values(c)]
     if n_ph != len(params):
         ctx.violation("placeholders-differ-from-bound-values", {"sql": sql, "params": params}, case)
@@ -550,7 +566,7 @@ def run_case(ctx, rng):
                 ctx.count("hostile_strings_bound")
             if len(p) >= 2 and p in sql_dyn and p.upper() not in SQL_WORDS:
                 ctx.violation("value-inlined-into-sql-text", {"sql": sql[:300], "value": p}, case)
-    if percent_s and "?" in sql:
+    if percent_s and "?" in sql.replace(own_text, ""):
         ctx.violation("mixed-placeholder-styles", {"sql": sql}, case)
     if len(conn.log) != 1:
         ctx.violation("more-than-one-statement-executed", {"log": conn.log[:3]}, case)
